@@ -27,7 +27,8 @@ ASSUMPTIONS = [
     "a message is 'rejected' iff its SOME/IP header does not decode (independent decoder), or it is not an SD notification (service/method/interface version/type/return code), or the library's SD decoder raises one of the two permitted errors on its payload",
     "exceptions that the library itself logs and swallows inside its own tasks (log_exceptions) are not counted as escaping",
 ]
-BUDGET = {"quick": {"examples": 12000, "shrink": 250}, "thorough": {"examples": 800000, "shrink": 1500}}
+BUDGET = {"quick": {"examples": 12000, "shrink": 250}, "thorough": {"examples": 800000, "shrink": 1500, "extra_shards": 16}}
+FUZZ_RUNS = {"quick": 0, "thorough": 400000}
 
 
 # --------------------------------------------------------------------------- generators
@@ -377,4 +378,12 @@ def _first_diff(what, a, b):
 def run_case(case):
     if case.get("kind") == "live":
         return run_live(case)
+    if case.get("kind") == "raw":   # an input found by the coverage-guided campaign
+        return run_decode({"kind": "arb", "hex": case["hex"]})
     return run_decode(case["bytes"])
+
+
+def extra(tier, seed, shard, st):
+    import sys
+    from ..fuzz import campaign
+    campaign.run_shard(sys.modules[__name__], tier, seed, shard, st, runs=FUZZ_RUNS[tier], with_corpus=shard % 2 == 0)
